@@ -705,6 +705,20 @@ impl<'a> Sess<'a> {
                     }
                 }
             }
+            "clone" => {
+                // File::clone: a second handle on the same file, with a copy of the cursor and of the cached entry
+                let h = sarg(op, "h");
+                let nh = sarg(op, "as");
+                a.insert("h".into(), json!(h));
+                a.insert("as".into(), json!(nh));
+                match self.files.get(h).cloned() {
+                    None => json!({"k":"skip","why":"no such file handle"}),
+                    Some(f) => {
+                        self.files.insert(nh.to_string(), f);
+                        json!({"k":"ok"})
+                    }
+                }
+            }
             "close" => {
                 let h = sarg(op, "h");
                 a.insert("h".into(), json!(h));
@@ -1132,6 +1146,23 @@ pub fn run_program(prog: &Value, w: &mut dyn std::io::Write) -> u64 {
             {
                 let mut d = dev.0.borrow_mut();
                 for p in pokes {
+                    if let Some(mask) = p.get("fat1_and").and_then(Value::as_u64) {
+                        // the shutdown / error bits other implementations keep in table entry 1 (FAT16: bits 15, 14; FAT32: bits 27, 26),
+                        // cleared in every copy
+                        if let Some(g) = Geo::parse(&d.img) {
+                            for k in 0..g.nfats {
+                                let base = (g.rsvd + k * g.spf) * g.bps;
+                                if g.ft == 32 {
+                                    let v = d.img.u32_at(base + 4) & (mask as u32);
+                                    d.img.write_at(base + 4, &v.to_le_bytes());
+                                } else if g.ft == 16 {
+                                    let v = d.img.u16_at(base + 2) & (mask as u16);
+                                    d.img.write_at(base + 2, &v.to_le_bytes());
+                                }
+                            }
+                        }
+                        continue;
+                    }
                     let off = p[0].as_u64().unwrap_or(0);
                     let bytes: Vec<u8> = p[1].as_array().map(|a| a.iter().map(|x| x.as_u64().unwrap_or(0) as u8).collect()).unwrap_or_default();
                     d.img.write_at(off, &bytes);
